@@ -2,6 +2,7 @@ package props
 
 import (
 	"fmt"
+	"go/constant"
 	"go/token"
 	"go/types"
 	"sort"
@@ -162,29 +163,9 @@ func ruleR11a(h *H) {
 				h.Bad(rule, name+": AbbreviatedKey", h.pos(l.pos), "bytewise AbbreviatedKey with a custom Compare: abbreviations would order keys differently from Compare")
 			} else if fn, isFn := ir.Canon(v).(*ssa.Function); isFn && fn.Blocks != nil {
 				h.Fn(ir.FuncName(fn))
-				hasMax, hasDefault, hasSlashTest := false, false, false
-				ir.Instrs(fn, func(in ssa.Instruction) {
-					switch x := in.(type) {
-					case *ssa.Return:
-						v := ir.ReturnValues(x)[0]
-						if c, ok := v.(*ssa.Const); ok && c.Value != nil && c.Uint64() == ^uint64(0) {
-							hasMax = true
-						}
-						if call, ok := v.(*ssa.Call); ok {
-							if fld, isD := isDefaultComparerField(call.Call.Value); isD && fld == "AbbreviatedKey" {
-								hasDefault = true
-							}
-						}
-					case *ssa.Call:
-						if f := x.Call.StaticCallee(); f != nil && f.Name() == "IndexByte" {
-							if c, ok := x.Call.Args[1].(*ssa.Const); ok && c.Value != nil && c.Int64() == '/' {
-								hasSlashTest = true
-							}
-						}
-					}
-				})
-				h.Verdict(hasMax && hasDefault && hasSlashTest, rule, name+": AbbreviatedKey", h.pos(l.pos), "keys with '/' map to MaxUint64, others to the bytewise abbreviation",
-					"the abbreviated key function does not have the shape (contains '/' -> MaxUint64, else bytewise abbreviation) that is coherent with the slash order")
+				good, why := abbreviatedKeyCoherent(fn)
+				h.Verdict(good, rule, name+": AbbreviatedKey", h.pos(l.pos), "keys with '/' anywhere map to MaxUint64, keys without any '/' to the bytewise abbreviation",
+					"the abbreviated key function is not coherent with the slash order: "+why)
 			}
 		}
 	}
@@ -626,4 +607,95 @@ func constantInt64(c *types.Const) (int64, bool) {
 	var v int64
 	_, err := fmt.Sscanf(s, "%d", &v)
 	return v, err == nil
+}
+
+// abbreviatedKeyCoherent: every result of the abbreviated-key function is either the
+// maximum (valid for any key: nothing sorts after it by abbreviation) or the bytewise
+// abbreviation of the whole key, and the latter only where it is established that the
+// *whole* key holds no separator byte (only there the slash order is the bytewise order).
+func abbreviatedKeyCoherent(fn *ssa.Function) (bool, string) {
+	if len(fn.Params) != 1 {
+		return false, "unexpected signature"
+	}
+	key := fn.Params[0]
+	isKey := func(v ssa.Value) bool { return ir.Canon(v) == ssa.Value(key) }
+	// separator search over the whole key: IndexByte(key, '/') / Index / IndexRune / IndexAny
+	isWholeKeySearch := func(v ssa.Value) (bool, string) {
+		call, ok := ir.Canon(v).(*ssa.Call)
+		if !ok {
+			return false, ""
+		}
+		f := call.Call.StaticCallee()
+		if f == nil || f.Pkg == nil || f.Pkg.Pkg.Path() != "bytes" || !strings.HasPrefix(f.Name(), "Index") || len(call.Call.Args) != 2 {
+			return false, ""
+		}
+		if !isKey(call.Call.Args[0]) {
+			return false, "the separator is searched in " + ir.Describe(call.Call.Args[0]) + ", not in the whole key: a key whose first '/' lies outside the searched part gets a bytewise abbreviation although it sorts after every key without '/'"
+		}
+		if c, ok := call.Call.Args[1].(*ssa.Const); ok && c.Value != nil && c.Value.Kind() == constant.Int && c.Int64() == '/' {
+			return true, ""
+		}
+		return false, "the searched byte is not the separator"
+	}
+	nRet, nDefault := 0, 0
+	res, why := true, ""
+	fail := func(w string) {
+		if res {
+			res, why = false, w
+		}
+	}
+	ir.Instrs(fn, func(in ssa.Instruction) {
+		r, ok := in.(*ssa.Return)
+		if !ok {
+			return
+		}
+		nRet++
+		v := ir.Canon(ir.ReturnValues(r)[0])
+		if c, ok := v.(*ssa.Const); ok {
+			if c.Value == nil || c.Uint64() != ^uint64(0) {
+				fail("a constant other than MaxUint64 is returned")
+			}
+			return
+		}
+		call, ok := v.(*ssa.Call)
+		if !ok {
+			fail("a result is neither MaxUint64 nor the bytewise abbreviation (" + ir.Describe(v) + ")")
+			return
+		}
+		if fld, isD := isDefaultComparerField(call.Call.Value); !isD || fld != "AbbreviatedKey" {
+			fail("a result is computed by " + describeCallee(call.Common()) + ", whose order cannot be related to the slash order")
+			return
+		}
+		nDefault++
+		if len(call.Call.Args) != 1 || !isKey(call.Call.Args[0]) {
+			fail("the bytewise abbreviation is taken of " + ir.Describe(call.Call.Args[0]) + ", not of the key")
+			return
+		}
+		guarded, gwhy := false, "the bytewise abbreviation is returned without establishing that the key holds no '/'"
+		for _, g := range ir.CmpGuards(r) {
+			for _, c := range []ir.Cmp{g, g.Flip()} {
+				isSearch, w := isWholeKeySearch(c.L)
+				if w != "" {
+					gwhy = w
+				}
+				if !isSearch {
+					continue
+				}
+				k, isC := ir.Canon(c.R).(*ssa.Const)
+				if !isC || k.Value == nil {
+					continue
+				}
+				if (c.Op == token.EQL && k.Int64() == -1) || (c.Op == token.LSS && k.Int64() == 0) || (c.Op == token.LEQ && k.Int64() == -1) {
+					guarded = true
+				}
+			}
+		}
+		if !guarded {
+			fail(gwhy)
+		}
+	})
+	if nRet == 0 {
+		return false, "no return found"
+	}
+	return res, why
 }
